@@ -4,7 +4,7 @@ From Coq Require Import ZArith NArith List Bool.
 Import ListNotations.
 From PG Require Import Model.SymCoreDefs Model.SymCoreOps Model.SymCoreTyped.
 From PG Require Import Proofs.SymCoreTypedBase Proofs.SymCoreTypedConf Proofs.SymCoreTypedLit Proofs.SymCoreTypedPrims
-                       Proofs.SymCoreTypedOps Proofs.SymCoreTypedTheorems.
+                       Proofs.SymCoreTypedOps Proofs.SymCoreTypedTheorems Proofs.SymCoreTypedBridge.
 From PG Require Import Model.Typing.
 Local Open Scope Z_scope.
 
@@ -56,6 +56,28 @@ Theorem C03_conforms_dict : forall ev P st ps i kd pa pt fl its fs m,
   (forall k f, In (k, Leaf LMissing) its -> dict_field fs k = Some f -> good f = true -> part P fl = true).
 Proof. exact conforms_dict. Qed.
 Print Assumptions C03_conforms_dict.
+
+(* The property as it is worded.  [Conforms] is local (each node answers for its immediate members); this is the step to whole
+   values: after any history without an allow_partial(True) scope, for every dict / list / object n of the forest that carries a
+   schema sp ([bound_to]) and was not made partial, nor anything below it ([total_node]), the Python value of n — nested dicts and
+   lists, an object below standing for its class; for an object n itself, its attribute dict ([value_of]) — is accepted by sp
+   and mapped to itself by Typing.apply with allow_partial = False.  [closed_env]: the table holds the Dict / List specs that
+   the fields of its entries bind their members to (the harness builds every table that way); [keyed]: dict nodes have
+   pairwise distinct keys (they are Python dicts).  Partial for the same reasons as the invariant ([good_env]). *)
+Theorem C03_schema_holds_after_history_partial : forall q ev rs ops ps n sp,
+  good_env ev -> closed_env ev -> history_ok false ops ->
+  get_at (run_ops2 q false ev (fst (init_roots false ev empty_state rs)) ops) ps = Some n ->
+  total_node n -> keyed n -> bound_to ev n sp ->
+  apply false sp (value_of n) = Ok (value_of n).
+Proof. exact schema_holds_after_history. Qed.
+Print Assumptions C03_schema_holds_after_history_partial.
+
+(* ... from any conforming forest *)
+Theorem C03_conforming_value_reapplies_partial : forall ev, good_env ev -> closed_env ev -> forall st ps n sp,
+  Conforms ev false st -> get_at st ps = Some n -> total_node n -> keyed n -> bound_to ev n sp ->
+  apply false sp (value_of n) = Ok (value_of n).
+Proof. exact conforming_value_reapplies. Qed.
+Print Assumptions C03_conforming_value_reapplies_partial.
 
 (* A write that is rejected (with any error: type / value / key errors of the schema, and also permission and index
    errors) is not stored: a refused operation that is not a batch, on a target that checks its members against a schema,
